@@ -228,17 +228,29 @@ def shrink(case):
         yield c
 
 
+def valid_boundary(rng):
+    """a well-formed document rewritten into an equally well-formed one on some boundary (stream name, document)"""
+    doc = nc.gen_doc(rng)
+    r = rng.random()
+    if r < 0.4:
+        return "exact-boundary", nb.decorate(rng, doc)[0]
+    if r < 0.55:
+        return "exact-names", nb.family_names(rng, doc)
+    if r < 0.75:
+        return "exact-order", nb.reorder(rng, doc)[0]
+    return "exact-coincidence", nb.coincide(rng, doc)[0]
+
+
 def gen_case(rng, quick=True):
     r = rng.random()
-    if r < 0.30:
+    if r < 0.25:
         return {"stream": "exact", "expect": "accept", "exact": True, "doc": nc.gen_doc(rng)}
     if r < 0.50:
-        doc, tags = nb.decorate(rng, nc.gen_doc(rng))
-        c = {"stream": "exact-boundary", "expect": "accept", "exact": True, "doc": doc}
-        return with_form(rng, c)
-    if r < 0.58:
+        stream, doc = valid_boundary(rng)
+        return with_form(rng, {"stream": stream, "expect": "accept", "exact": True, "doc": doc})
+    if r < 0.57:
         return {"stream": "decimal", "expect": "accept", "exact": False, "doc": nc.gen_doc(rng, decimal=True)}
-    if r < 0.66:
+    if r < 0.65:
         vs = list(nb.near_misses(rng, nc.gen_doc(rng, quirks=False)))
         tag, d = rng.choice(vs)
         return with_form(rng, {"stream": "near-miss", "tag": tag, "expect": "", "exact": True, "doc": d})
@@ -258,30 +270,47 @@ def gen_case(rng, quick=True):
     return {"stream": "exact", "expect": "accept", "exact": True, "doc": nc.gen_doc(rng)}
 
 
-def with_form(rng, case):
-    """the input form: the document written by the real write_yaml (default), the tree itself, or a hand-spelled text"""
+def with_form(rng, case, p_history=0.15):
+    """the input form (the document written by the real write_yaml - default -, the tree itself, a hand-spelled text,
+    the name of a file holding either text) and what the process did before (other loads, the same source twice)"""
     r = rng.random()
-    if r < 0.2:
+    if r < 0.18:
         case["via"] = "tree"
-    elif r < 0.45:
+    elif r < 0.28:
+        case["via"] = "file"
+    elif r < 0.50:
         t = nb.spell(rng, nc.to_py(case["doc"]))
         if t is not None:
             case["text"] = t
+            if rng.random() < 0.25:
+                case["via"] = "file"
+    if rng.random() < p_history:
+        try:
+            case["history"] = nb.histories(rng, case["doc"])
+        except Exception:
+            case["history"] = [{"doc": nc.gen_doc(rng, quirks=False), "via": "text", "write": True}]
+    if rng.random() < 0.08:
+        case["twice"] = True
     return case
 
 
 def catalogue(rng, quick):
-    """every boundary instance of every listed class (and every near miss) on documents that have all module kinds"""
+    """every boundary instance of every listed class (and every near miss) on documents that have all module kinds;
+    documents of every size around the usual thresholds"""
     cases = []
     for b in range(1 if quick else 8):
         doc = nb.rich_doc(rng)
         for cls in nc.CLASSES:
             for tag, d in nb.variants(rng, doc, cls, per_kind=(24 if quick else None)):
                 cases.append(with_form(rng, {"stream": "boundary", "tag": cls + "/" + tag, "expect": "reject:" + cls,
-                                             "exact": True, "doc": d}))
+                                             "exact": True, "doc": d}, p_history=0.05))
         for tag, d in nb.near_misses(rng, doc):
-            cases.append(with_form(rng, {"stream": "near-miss", "tag": tag, "expect": "", "exact": True, "doc": d}))
+            cases.append(with_form(rng, {"stream": "near-miss", "tag": tag, "expect": "", "exact": True, "doc": d},
+                                   p_history=0.05))
         cases.append({"stream": "small-scale", "expect": "accept", "exact": True, "doc": nb.small_scale(rng, doc)})
+    for cfg in (nb.SIZES_QUICK if quick else nb.SIZES_THOROUGH):
+        cases.append(with_form(rng, {"stream": "size", "tag": " ".join(f"{k}={v}" for k, v in cfg.items()), "expect": "accept",
+                                     "exact": True, "doc": nb.sized_doc(rng, **cfg)}, p_history=0.0))
     return cases
 
 
@@ -307,11 +336,17 @@ def run(ctx, out, replay=None):
                 "(YAML null / true / 12 / 1e3), near-attributes by case / blank / plural, overlaps by a sliver, `rectangles: []`, "
                 "nets whose only other entry is the weight) and every near miss outside the list (verdict left to the model); "
                 "(b) random netlist documents: 1-8 modules over every attribute combination, nets of arity 2-6, dyadic numbers; "
-                "20% rewritten with boundary-valid values (names null / true / on / _ / area / Modules, extreme weights and areas, "
-                "ints for floats); 34% carry one injected defect of a listed class at a random position (half of them boundary "
-                "instances); 8% near misses; 8% decimal (oracle only); a quarter of the new streams given as a tree or as "
-                "hand-spelled YAML text (1e3, +2, .5, quoted names); non-trivial = at least two modules and a net or two "
-                "rectangles; distinct by hash")
+                "25% rewritten into an equally valid document on a boundary (names null / true / on / _ / area / Modules, names that "
+                "are prefixes of each other - H1, H1_0, H1_io -, extreme weights and areas, ints for floats, modules / nets / "
+                "rectangles / attributes reversed or sorted, rectangles of equal area, a centre equal to the centroid, a soft area "
+                "equal to its rectangles, weight 1 / 1.0 / True); 35% carry one injected defect of a listed class at a random "
+                "position (half of them boundary instances); 8% near misses; 7% decimal (oracle only); (c) sizes: documents with "
+                "9..257 (thorough 1001) modules, nets of 9..65 (257) members, 33..101 (1001) nets, 9..65 (161) rectangles in a "
+                "module, names of 32..1000 (4097) characters, 9..33 (101) regions; (d) input forms: half of the new streams are "
+                "given as the tree itself, as hand-spelled YAML text (1e3, +2, .5, 0x1F, quoted names, ~) or as the name of a "
+                "file; 15% after a history (other designs with the same module names, the design scaled, a rejected variant, the "
+                "design itself - loaded and written in the same process before) and 8% with the same source loaded twice; "
+                "non-trivial = at least two modules and a net or two rectangles; distinct by hash")
     cases = []
     if replay and "case" in replay:
         cases.append(fr.unjson(replay["case"]))
